@@ -47,7 +47,11 @@ package main
 //   continue    `continue` (own loop): the rest of the body is dropped, the post statement runs.
 //               `continue L` inside a loop nested directly in the body of the loop labelled L:
 //               `cntN := false; inner loop with {cntN = true; break} for continue L; if cntN { continue }`
-//   qualified calls  `pkg.F(…)` of an already translated package-level function
+//   qualified calls  `pkg.F(…)` of an already translated package-level function; the results of a callee
+//               with recursion fuel are bound by projections (`let r := f loopFuel x; let a := r.1; …`), not
+//               by a tuple pattern, so that unfolding the caller never forces the evaluation of the callee
+//   suffix heads  in a suffix translation (suffixList) a slice bound in the skipped head by
+//               `xs, … := f(…)` with f translated is a parameter `(xs : List …)` of the core
 //   nil objects `var e *T` (no value): e is a local object whose nil value word is the uninterpreted
 //               parameter `nil_T` (so nothing can be proved about a returned nil)
 //   method chains  `x.M(a).P()` as a condition, x a local object: `method_P (method_M x a)` with an
